@@ -12,11 +12,11 @@ def make_gen(kind, n, b, seed, method="uniform"):
     jax, jnp, np, eqx, jinns = jx()
     key = jax.random.PRNGKey(seed)
     if kind == "ode_t":
-        g = jinns.data.DataGeneratorODE(key, n, 0.0, 1.0, b, method)
+        g = jinns.data.DataGeneratorODE(key, n, 0.0, 1.0, b, method, **({"nt_start": max(1, n // 2)} if seed % 3 == 0 else {}))     # a start count without refinement is ignored
         return g, (lambda g: g.times), (lambda g: g.temporal_batch())
     if kind == "omega":
         g = jinns.data.CubicMeshPDEStatio(key=key, n=n, nb=None, omega_batch_size=b, omega_border_batch_size=None,
-                                          dim=2, min_pts=(0.0, -1.0), max_pts=(1.0, 2.0), method="uniform")
+                                          dim=2, min_pts=(0.0, -1.0), max_pts=(1.0, 2.0), method="uniform", **({"n_start": max(1, n // 2)} if seed % 3 == 0 else {}))
         return g, (lambda g: g.omega), (lambda g: g.inside_batch())
     if kind == "border":
         g = jinns.data.CubicMeshPDEStatio(key=key, n=4, nb=4 * n, omega_batch_size=2, omega_border_batch_size=b,
@@ -25,7 +25,7 @@ def make_gen(kind, n, b, seed, method="uniform"):
     if kind == "pde_t":
         g = jinns.data.CubicMeshPDENonStatio(key=key, n=4, nb=None, nt=n, omega_batch_size=2, omega_border_batch_size=None,
                                              temporal_batch_size=b, dim=1, min_pts=(0.0,), max_pts=(1.0,), tmin=0.0, tmax=2.0,
-                                             method=method)
+                                             method=method, **({"nt_start": max(1, n // 2), "n_start": 2} if seed % 3 == 0 else {}))
         return g, (lambda g: g.times), (lambda g: g.temporal_batch())
     if kind == "obs":
         xs = jnp.arange(n, dtype=float)[:, None] * 10.0
